@@ -1851,6 +1851,10 @@ class Interp:
                 return
             gen = e.generators[gi]
             it = self.eval(gen.iter, cfr if gi else fr)
+            if isinstance(it, Obj):
+                k, fn = mro_lookup(it.cls, '__iter__')
+                if fn is not None:
+                    it = self.call(Bound(it, fn), [], {})
             if gi == 0 and isinstance(it, (SSeq, Cell)) and self.ctx.unique_int(z3.Length(zseq(it))) is None:
                 raise _SymbolicComp(it)
             for v in self.iterate(it):
